@@ -316,7 +316,7 @@ def execute(case):
         res["counters"]["metadata_probes"] = len(case["probes"])
         res["nontrivial"] = False
         res["case_digest"] = 0
-        res["digest"] = common.digest([case, f])
+        res["digest"] = common.digest([case, f and f[0]])
     else:
         f = None
         w = World(case)
@@ -346,7 +346,7 @@ def execute(case):
         res["counters"]["fault:reentrant_mutation"] = ref.reentrant
         res["nontrivial"] = ref.reentrant > 0 and res["counters"]["deliveries"] > 0
         res["case_digest"] = common.digest8(case)
-        res["digest"] = common.digest([case, w.log, f])
+        res["digest"] = common.digest([case, w.log, f and f[0]])
         res["observed"] = {"log": ref.log[:12]}
     if f:
         res["status"] = "violation"
